@@ -2,6 +2,10 @@ import GV.Model.RecvBuffer
 import GV.Model.Reassembly
 import GV.Proofs.Reassembly
 import GV.Gen.LimitsG4
+import GV.Model.RecvEngine
+import GV.Proofs.RecvEngine
+import GV.Model.StateMachines
+import GV.Gen.StateMaps
 /-!
 C13 — Receive buffering is bounded.
 
@@ -266,6 +270,105 @@ theorem endless_incomplete_errors (wf : Bytes → Res) (segs : List Bytes)
   simpa [readAll, RState.init, growErrAt] using this
 
 end endless
+
+
+/-! ### Per-state limits: the limit consulted is that of a state that lags behind the queue -/
+
+section perstate
+open GV.SM GV.Model.RecvEngine GV.Proofs.RecvEngine
+
+/-- `StateMap[id].PendingMessageByteLimit` in a generated table. -/
+def limitOf (m : Machine) (id : Nat) : Nat :=
+  match m.stateOf id with
+  | some s => s.limit
+  | none => 0
+
+/-- The engine parameters of a generated machine (`Gen/StateMaps`, read out of the running
+    code on every run). -/
+def engOf (m : Machine) : Eng Sym := ⟨m.agencyOf, limitOf m, m.step⟩
+
+/-- Table check: every transition into a state with a tighter byte limit changes the agency. -/
+def tightenOk (m : Machine) : Bool :=
+  m.trans.all fun tr =>
+    !(tightens (limitOf m tr.src) (limitOf m tr.dst)) || (m.agencyOf tr.dst != m.agencyOf tr.src)
+
+def agencyOk (m : Machine) : Bool := m.states.all fun s => decide (s.agency ≤ 2)
+
+theorem findTr_mem (ts : List Tr) (s : Nat) (a : Sym) (d : Nat) (h : findTr ts s a = some d) :
+    ∃ tr ∈ ts, tr.src = s ∧ tr.dst = d := by
+  induction ts with
+  | nil => simp [findTr] at h
+  | cons t rest ih =>
+    simp only [findTr] at h
+    split at h
+    · rename_i hc
+      simp only [Option.some.injEq] at h
+      exact ⟨t, by simp, hc.1, h⟩
+    · obtain ⟨tr, hm, h1, h2⟩ := ih h
+      exact ⟨tr, by simp [hm], h1, h2⟩
+
+theorem handover_of_table (m : Machine) (h : tightenOk m = true) :
+    LimitDropsOnHandover (engOf m) := by
+  intro s a d hn ht
+  obtain ⟨tr, hm, h1, h2⟩ := findTr_mem m.trans s a d hn
+  unfold tightenOk at h
+  rw [List.all_eq_true] at h
+  have := h tr hm
+  subst h1 h2
+  simp only [engOf] at ht ⊢
+  simp only [ht, Bool.not_true, Bool.false_or, bne_iff_ne, ne_eq] at this
+  exact this
+
+theorem agencyRange_of_table (m : Machine) (h : agencyOk m = true) : AgencyRange (engOf m) := by
+  intro s
+  simp only [engOf, Machine.agencyOf, Machine.stateOf]
+  cases hf : m.states.find? (fun st => decide (st.id = s)) with
+  | none => simp
+  | some st =>
+    have hmem : st ∈ m.states := List.mem_of_find?_eq_some hf
+    unfold agencyOk at h
+    rw [List.all_eq_true] at h
+    simpa using h st hmem
+
+/-- **Limit drops only on an empty queue — decided on every generated state map.** In all
+    36 machines read out of the running code, every transition into a state with a tighter
+    `PendingMessageByteLimit` (block-fetch: BatchDone / NoBlocks into Idle) hands the agency
+    over, so a peer that respects agency has nothing queued behind it. -/
+theorem limit_drops_only_on_handover :
+    ∀ m ∈ GV.Gen.StateMaps.all, tightenOk m = true ∧ agencyOk m = true := by decide
+
+/-- **Per-state bound.** For every generated machine, either role, every schedule of peer
+    sends (respecting agency), accepts with the limit of the lagging current state, handler
+    starts / ends and own sends: whenever the current state declares a limit, the bytes queued
+    behind the message being handled never exceed it. -/
+theorem pending_le_state_limit (m : Machine) (hm : m ∈ GV.Gen.StateMaps.all)
+    (us : Nat) (hus : us = 1 ∨ us = 2) (acts : List (EAct Sym)) (s' : ES Sym)
+    (hr : erun (engOf m) us ⟨m.init, [], false⟩ acts = some s')
+    (hl : limitOf m s'.cur > 0) :
+    sumSizes s'.path ≤ limitOf m s'.cur := by
+  have ht := limit_drops_only_on_handover m hm
+  have hinv := einv_run (engOf m) us hus (handover_of_table m ht.1) (agencyRange_of_table m ht.2)
+    acts _ s' (einv_init (engOf m) us m.init) hr
+  exact hinv.2.2 hl
+
+/-- The handover condition is necessary: a table where a tightening transition keeps the
+    agency with the peer admits a run that breaks the bound (so the table check is not
+    vacuous). -/
+example :
+    let E : Eng Nat := ⟨fun _ => 2, fun s => if s = 0 then 100 else 10, fun s _ => some (s + 1)⟩
+    ∃ s', erun E 1 ⟨0, [], false⟩ [.peerSend 0 50, .peerSend 0 50, .beginH] = some s' ∧
+      ¬ (sumSizes s'.path ≤ E.limit s'.cur) := by
+  refine ⟨⟨1, [(0, 50), (0, 50)], true⟩, by rfl, by decide⟩
+
+/-- Non-vacuity on the real block-fetch client table: a batch is queued while the state is
+    still Busy, handled one by one, and after BatchDone the Idle limit applies with nothing
+    queued. -/
+example : (erun (engOf GV.Gen.StateMaps.blockfetch_client) 1 ⟨100000, [], false⟩
+    [.ourSend ⟨0, 0⟩, .peerSend ⟨2, 0⟩ 2, .peerSend ⟨4, 0⟩ 2000000, .peerSend ⟨5, 0⟩ 2,
+     .beginH, .endH, .beginH, .endH, .beginH]).map (fun s => (s.cur, sumSizes s.path)) =
+    some (100000, 0) := by decide
+
+end perstate
 
 /-! ### Regenerated limits (from the source on every run) -/
 
